@@ -812,6 +812,14 @@ func (g *txGen) event() *gobinlog.StreamEvent {
 			"drop table if exists t1", "truncate table orders", "rename table a to b", "SET TIMESTAMP=1407805592",
 			"insert into vt_test_keyspace.vt_a(id,message)values(1076895760,'abcd')", "update t set a='<b>&\"x\"' where id=1", "delete from t where s='a\\nb'\n")
 		e.Query = replication.Query{Database: e.Table.DbName, SQL: g.text("sql", plain)}
+		if q := r.Side(); q.Chance(1, 2) {
+			// the charset status variable of the query event (what parseEvents copies from the event): the client
+			// character set of a MySQL 8.0 utf8mb4 client (255), binary (63), latin1 (8), utf8 / utf8mb4 (33, 45, 46, 224) ...
+			// the serialised text does not depend on it
+			cl := q.Pick(255, 63, 8, 33, 45, 46, 224, 83, q.Intn(65536))
+			e.Query.Charset = &replication.Charset{Client: int32(cl), Conn: int32(q.Pick(cl, 8, 33, 45, 255, q.Intn(65536))), Server: int32(q.Pick(8, 33, 45, 255, q.Intn(65536)))}
+			g.flags[fmt.Sprintf("ev:charset-client-%s", map[bool]string{true: "utf8-33/45", false: "other"}[cl == 33 || cl == 45])] = true
+		}
 		if e.Query.SQL == "" {
 			g.flags["ev:sql-empty"] = true // falls into the rows variant
 		} else {
